@@ -105,7 +105,7 @@ fn gen_doc(ch: &mut Ch) -> Doc {
         let na = ch.below(if thorough() { 7 } else { 5 }, "sink.nattrs") as usize;
         let mut attrs = Vec::new();
         for _ in 0..na {
-            let key = *ch.pick(&["rt", "if", "sz", "title", "ct", "obs"], "sink.key");
+            let key = *ch.pick(&["rt", "if", "sz", "title", "ct", "obs", "title*", "hreflang", "Title", "hrefLang", "x-y.z"], "sink.key");
             attrs.push(match ch.below(4, "sink.attrkind") {
                 0 => {
                     let structural = ch.below(2, "sink.plain.structural") == 1;
@@ -342,7 +342,7 @@ pub fn run(ch: &mut Ch, verbose: bool) -> Outcome {
     };
     let same = |m: &Vec<(String, Vec<(String, String)>)>| -> bool {
         let d = doc_meaning(&doc);
-        m.len() == d.len() && m.iter().zip(d.iter()).all(|(a, b)| (a.0 == b.0 || pct(&a.0) == b.0.as_bytes()) && a.1 == b.1)
+        m.len() == d.len() && m.iter().zip(d.iter()).all(|(a, b)| (a.0 == b.0 || pct(&a.0) == b.0.as_bytes()) && a.1.len() == b.1.len() && a.1.iter().zip(b.1.iter()).all(|(x, y)| x.0.eq_ignore_ascii_case(&y.0) && x.1 == y.1))
     };
     match read_back(&full) {
         Ok(m) if same(&m) => {}
